@@ -461,7 +461,7 @@ Print Assumptions c07_f17_class_nonvacuous.
     translated from src/chunk.rs on every run (theories/Gen.v, FRAGMENTS of tools/rs2coq.py); proofs/Gen_equiv_frag.v proves them
     equal to the statement's formulas for all arguments and to what the model's decoder computes. *)
 From Hoot Require Import Gen.
-From Hoot.proofs Require Import Gen_equiv_frag.
+From Hoot.proofs Require Import Gen_equiv_frag_c07.
 Theorem c07_code_read_data : forall src_len dst_len left, gen_chunk_read_n src_len dst_len left = N.min (N.min src_len dst_len) left.
 Proof. exact gen_chunk_read_n_spec. Qed.
 Theorem c07_code_read_data_is_model : forall lft src room,
@@ -657,10 +657,10 @@ Print Assumptions c07_code_parse_input_frame.
 Print Assumptions c07_code_nonvacuous.
 
 (* ---- the same step through the translated [BodyReader::read] / [read_chunked] (src/body.rs, outer loop included) *)
-From Hoot.proofs Require Import Gen2_equiv_body Gen2_equiv_reader_chunked Gen2_transport.
-Theorem c07_code_read_equiv : forall r src dst stop,
-  limit_fits r src dst -> rd_rel dst (gen_br_read r src dst stop) (reader_read r src (len dst) stop).
-Proof. exact gen_br_read_equiv. Qed.
+From Hoot.proofs Require Import Gen2_equiv_rel Gen2_equiv_reader_chunked Gen2_transport_read_chunked.
+Theorem c07_code_read_equiv : forall d src dst stop,
+  rd_rel dst (gen_br_read (RChunked d) src dst stop) (reader_read (RChunked d) src (len dst) stop).
+Proof. exact gen_br_read_on_chunked. Qed.
 (** c07_step, stated about the code: from a decoder state related to a position of a valid coding, one call of the translated
     [BodyReader::read] on ANY window of the stream and ANY output buffer returns Ok, writes a prefix of the remaining payload at the
     front of the buffer and nothing else, consumes a prefix of the remaining coding and lands in a related state. *)
@@ -676,7 +676,7 @@ Proof.
   intros st R ds rest k dst stop Hrel.
   destruct (c07_step st R ds rest k (len dst) stop Hrel) as (st' & C & R' & out & ds' & Hr & H1 & H2 & H3 & H4 & H5 & H6).
   exists st', C, R', out, ds'. repeat split; try assumption.
-  apply gen_read_ok_of_model; [exact I|]. apply c07_step_reader. exact Hr.
+  apply gen_read_chunked_ok_of_model. apply c07_step_reader. exact Hr.
 Qed.
 Print Assumptions c07_code_read_equiv.
 Print Assumptions c07_code_step.
